@@ -43,6 +43,15 @@ class EdgeInf;
 
 typedef std::list<VertexSet> VertexSetList;
 
+// Orders vertices by ID and then position, rather than by pointer value,
+// so that the order in which terminals are considered does not depend on
+// where the vertices were allocated.
+struct CmpVertInfPtrById
+{
+    bool operator()(const VertInf *lhs, const VertInf *rhs) const;
+};
+typedef std::set<VertInf *, CmpVertInfPtrById> OrderedVertexSet;
+
 typedef std::pair<EdgeInf *, VertInf *> LayeredOrthogonalEdge;
 typedef std::list<LayeredOrthogonalEdge> LayeredOrthogonalEdgeList;
 
@@ -104,8 +113,8 @@ class MinimumTerminalSpanningTree
 
         Router *router;
         bool isOrthogonal;
-        std::set<VertInf *> terminals;
-        std::set<VertInf *> origTerminals;
+        OrderedVertexSet terminals;
+        OrderedVertexSet origTerminals;
         JunctionHyperedgeTreeNodeMap *hyperedgeTreeJunctions;
 
         VertexNodeMap nodes;
